@@ -11,7 +11,7 @@ def run(tier):
     wd = workdir("C13")
     build_harness()
     cases = os.path.join(wd, "cases.ndjson")
-    cfgs = ["MC_HeaderOps_quick.cfg"] if tier == "quick" else ["MC_HeaderOps_thoroughA.cfg", "MC_HeaderOps_thoroughB.cfg"]
+    cfgs = ["MC_HeaderOps_quick.cfg", "MC_HeaderOps_quickH3.cfg"] if tier == "quick" else ["MC_HeaderOps_thoroughA.cfg", "MC_HeaderOps_thoroughB.cfg"]
     n = 0
     for cfg in cfgs:
         mc = tlc_mc("MC_HeaderOps", cfg, wd, workers=8, cases_out=cases)
